@@ -449,6 +449,13 @@ class FuncGraph:
             if isinstance(pat, ast.MatchOr):
                 ts = [test_of(p_) for p_ in pat.patterns]
                 return None if any(t_ is None for t_ in ts) else ast.BoolOp(op=ast.Or(), values=ts)
+            if isinstance(pat, ast.MatchClass) and not pat.patterns and not pat.kwd_patterns:
+                # case np.ndarray(): / case str():   is isinstance(x, np.ndarray) / isinstance(x, str)
+                return ast.Call(func=ast.Name(id='isinstance', ctx=ast.Load()), args=[s.subject, pat.cls], keywords=[])
+            if isinstance(pat, ast.MatchAs) and pat.pattern is None:
+                return ast.Constant(True)           # `_` / a bare capture in the middle of the cases: decided by its guard alone
+            if isinstance(pat, ast.MatchAs) and pat.pattern is not None:
+                return test_of(pat.pattern)         # `case str() as prefix`: the test of the inner pattern (the name is bound below)
             return None
         if not isinstance(s.subject, (ast.Name, ast.Attribute)):
             self.unknown_stmts.append(s)
@@ -467,9 +474,18 @@ class FuncGraph:
                 self.unknown_stmts.append(s)
                 self.__dict__.setdefault('not_followed', []).append(('match statement with structural patterns', getattr(s, 'lineno', 0)))
                 return None
+            body_ = list(c.body)
+            if isinstance(c.pattern, ast.MatchAs) and c.pattern.name is not None:
+                # the captured name is the subject itself (also inside the guard)
+                bind_ = ast.Assign(targets=[ast.Name(id=c.pattern.name, ctx=ast.Store())], value=s.subject)
+                body_ = [bind_] + body_
+                if c.guard is not None and any(isinstance(x, ast.Name) and x.id == c.pattern.name for x in ast.walk(c.guard)):
+                    self.unknown_stmts.append(s)
+                    self.__dict__.setdefault('not_followed', []).append(('match statement whose guard reads its capture', getattr(s, 'lineno', 0)))
+                    return None
             if c.guard is not None:
-                t_ = ast.BoolOp(op=ast.And(), values=[t_, c.guard])
-            chain.append((t_, list(c.body)))
+                t_ = c.guard if (isinstance(t_, ast.Constant) and t_.value is True) else ast.BoolOp(op=ast.And(), values=[t_, c.guard])
+            chain.append((t_, body_))
         if not chain:
             chain = [(ast.Constant(True), tail or [ast.Pass()])]
             tail = None
@@ -778,7 +794,7 @@ class FuncGraph:
             # for k, row in enumerate(X): ... row[d] = v   changes X (see assign): X is carried around this loop and the loops nested in it
             views[s.target.elts[1].id] = s.iter.args[0].id
         elif kind == 'for' and isinstance(s.iter, ast.Call) and isinstance(s.iter.func, ast.Name) and s.iter.func.id == 'zip' and isinstance(s.target, ast.Tuple) \
-                and len(s.target.elts) == len(s.iter.args) and not s.iter.keywords:
+                and len(s.target.elts) == len(s.iter.args) and all(k_.arg == 'strict' for k_ in s.iter.keywords):
             # for a_row, b_row in zip(A, B): a_row[...] = v   changes A
             for tn_, an_ in zip(s.target.elts, s.iter.args):
                 if isinstance(tn_, ast.Name) and isinstance(an_, ast.Name):
@@ -1024,6 +1040,13 @@ class FuncGraph:
             for i, e in enumerate(target.elts):
                 tn = e.value if isinstance(e, ast.Starred) else e
                 u = self.project(value, i, n, node, top=not isinstance(getattr(node, 'value', None), (ast.Tuple, ast.List))) if star is None else None
+                if u is None and star is not None and i != star and value.op == 'attr' and value.args[1] == 'shape' and isinstance(tn, ast.Name) and tn.id == '_':
+                    u = self.mk('unknown', ('unused',), node)
+                elif u is None and star is not None and i != star and value.op == 'attr' and value.args[1] == 'shape' and n <= 4 and \
+                        sum(1 for e_ in target.elts if not isinstance(e_, ast.Starred) and not (isinstance(e_, ast.Name) and e_.id == '_')) <= 2 and \
+                        any(isinstance(e_, ast.Starred) and isinstance(e_.value, ast.Name) and e_.value.id == '_' for e_ in target.elts):
+                    # *_, n, d = x.shape  reads single axis lengths: d is x.shape[-1], n is x.shape[-2] (and `a, *_ = x.shape` gives x.shape[0])
+                    u = self.mk('sub', (value, const(i - n if i > star else i, node, self.fn)), node)
                 if u is None:
                     u = self.mk('unpack', (value, i, n, star, tn.id if isinstance(tn, ast.Name) else None), node)
                 self.assign(e.value if isinstance(e, ast.Starred) else e, u, env, node)
@@ -1061,7 +1084,7 @@ class FuncGraph:
                     X = el_ = None
                     if b_.op == 'unpack' and b_.args[3] is None and b_.args[0].op == 'elem':
                         it_ = b_.args[0].args[0]
-                        if it_.op == 'call' and it_.args[0].op == 'ref' and it_.args[0].args[0] == ('builtin', 'zip') and not it_.args[2] and len(it_.args[1]) == b_.args[2] \
+                        if it_.op == 'call' and it_.args[0].op == 'ref' and it_.args[0].args[0] == ('builtin', 'zip') and all(k_ == 'strict' for k_, _ in it_.args[2]) and len(it_.args[1]) == b_.args[2] \
                                 and not any(a_.op == 'star' for a_ in it_.args[1]):
                             X, el_ = it_.args[1][b_.args[1]], b_.args[0]
                     elif b_.op == 'elem' and isinstance(b_.args[0], T) and not (b_.args[0].op == 'call' and b_.args[0].args[0].op == 'ref'):
@@ -1321,6 +1344,8 @@ class FuncGraph:
                 if r is not None:
                     if isinstance(r, Lib) and r.dotted == 'numpy.newaxis':
                         return const(None, e, self.fn)      # np.newaxis is None
+                    if isinstance(r, Lib) and r.dotted in ('math.inf', 'numpy.inf'):
+                        return const(float('inf'), e, self.fn)
                     return self.mk('ref', (r,), e)
             elif isinstance(o, Cls):
                 r = self.prog.getattr_static(o, e.attr)
@@ -1328,6 +1353,11 @@ class FuncGraph:
                     t = self.mk('ref', (r,), e)
                     t.extra = ('via-class', o)
                     return t
+        if e.attr in ('logabsdet', 'sign') and base.op == 'call' and base.args[0].op == 'ref' and isinstance(base.args[0].args[0], Lib) and base.args[0].args[0].dotted == 'numpy.linalg.slogdet':
+            return self.mk('sub', (base, const(1 if e.attr == 'logabsdet' else 0, e, self.fn)), e)          # the named fields of the slogdet result
+        if e.attr in ('eigenvalues', 'eigenvectors') and base.op == 'call' and base.args[0].op == 'ref' and isinstance(base.args[0].args[0], Lib) and \
+                base.args[0].args[0].dotted in ('numpy.linalg.eigh', 'numpy.linalg.eig'):
+            return self.mk('unpack', (base, 0 if e.attr == 'eigenvalues' else 1, 2, None, e.attr), e)         # ... and of eigh / eig
         if e.attr == 'mT' and base.op != 'ref':
             return self._libcall('numpy.swapaxes', (base, const(-1, e, self.fn), const(-2, e, self.fn)), e)          # x.mT is the matrix transpose np.swapaxes(x, -1, -2)
         if e.attr == 'smallest_normal' and base.op == 'call' and base.args[0].op == 'ref' and isinstance(base.args[0].args[0], Lib) and base.args[0].args[0].dotted == 'numpy.finfo':
